@@ -79,6 +79,10 @@ def _fake_optic(cols, nrays, rng_fill, extra=None):
 
 
 def kernel_cases(ctx):
+    """every case is built as a dict {input path: value} and ordered by the kernel's manifest, so the same
+    generator serves the code before and after the proposed fixes (which add inputs: media indices,
+    vignetting factors, fields.max_field)"""
+    import inspect
     import warnings
     import numpy as np
     warnings.simplefilter('ignore')
@@ -88,6 +92,16 @@ def kernel_cases(ctx):
     g = ctx.gen
     n = ctx.n(250, 2500)
     fill = lambda: g.uni(-0.5, 0.5)
+    SG = 'self.optic.surface_group.'
+
+    def ordered(kname, vals):
+        man = ctx.manifests.get(kname)
+        if man is None:
+            return []
+        return [vals[i['path']] for i in man['inputs']]
+
+    def has_param(fn, name):
+        return name in inspect.signature(fn).parameters
 
     def column(last, ns):
         return [g.uni(-30, 30) for _ in range(ns - 1)] + [last]
@@ -112,7 +126,11 @@ def kernel_cases(ctx):
     def mkwf(cls=Wavefront):
         return object.__new__(cls)
 
-    # --- _get_reference_sphere: pupil_z, x col, nrays, y col, z col
+    def media(n_img, n_obj):
+        return dict(image_surface=types.SimpleNamespace(material_pre=types.SimpleNamespace(n=lambda w: n_img)),
+                    object_surface=types.SimpleNamespace(material_post=types.SimpleNamespace(n=lambda w: n_obj)))
+
+    # --- _get_reference_sphere
     cases, py = [], []
     for i in range(n):
         ns = g.r.randint(2, 12)
@@ -121,7 +139,8 @@ def kernel_cases(ctx):
         cols = {'x': column(xc, ns), 'y': column(yc, ns), 'z': column(zc, ns)}
         wf = mkwf()
         wf.optic = _fake_optic(cols, nr, fill)
-        cases.append([pz, cols['x'], nr, cols['y'], cols['z']])
+        cases.append(ordered('wf_ref_sphere', {'pupil_z': pz, SG + 'x': cols['x'], 'nrays': nr, SG + 'y': cols['y'],
+                                               SG + 'z': cols['z']}))
         try:
             r = wf._get_reference_sphere(pz)
             py.append({'ok': [_hex(v) for v in r]})
@@ -135,47 +154,68 @@ def kernel_cases(ctx):
         ns = g.r.randint(2, 12)
         nr = g.r.choice([1, 1, 2, 3])
         p, d, c, R = geometry(i)
+        n_img = g.r.choice([1.0, 1.0, g.uni(1.0, 1.8), -1.0])
+        w = g.r.choice([0.4861, 0.55, 0.6563])
         cols = {'x': column(p[0], ns), 'y': column(p[1], ns), 'z': column(p[2], ns),
                 'L': column(d[0], ns), 'M': column(d[1], ns), 'N': column(d[2], ns),
                 'opd': sorted(column(g.uni(50, 200), ns))}
         wf = mkwf()
-        wf.optic = _fake_optic(cols, nr, lambda: g.uni(-0.01, 0.01))
+        wf.optic = _fake_optic(cols, nr, lambda: g.uni(-0.01, 0.01), media(n_img, 1.0))
         args = [np.array([c[0]]), np.array([c[1]]), np.array([c[2]]), np.array([R])]
-        cases_t.append(c + [R] + [cols[k] for k in 'xyzLMN'])
-        cases_p.append(c + [R, cols['opd']] + [cols[k] for k in 'xyzLMN'])
-        for lst, fn in ((py_t, wf._opd_image_to_xp), (py_p, wf._get_path_length)):
+        vals = {'xc': c[0], 'yc': c[1], 'zc': c[2], 'R': R, 'r': R, 'wavelength': w,
+                'self.optic.image_surface.material_pre.n()': n_img}
+        vals.update({SG + k: cols[k] for k in cols})
+        cases_t.append(ordered('wf_image_to_xp', vals))
+        cases_p.append(ordered('wf_get_path_length', vals))
+        pargs = args + ([w] if has_param(Wavefront._get_path_length, 'wavelength') else [])
+        for lst, fn, aa in ((py_t, wf._opd_image_to_xp, args), (py_p, wf._get_path_length, pargs)):
             try:
-                lst.append({'ok': [_hex(fn(*args))]})
+                lst.append({'ok': [_hex(fn(*aa))]})
             except Exception as e:   # noqa
                 lst.append({'err': type(e).__name__})
     yield 'wf_image_to_xp', cases_t, {'pyres': py_t, 'tol': 1e-12}
     yield 'wf_get_path_length', cases_p, {'pyres': py_p, 'tol': 1e-12}
 
     # --- _correct_tilt in both call forms, and _generate_field_data after the trace
-    def tilt_optic(ft, maxx, maxy, epd):
-        return dict(field_type=ft, fields=types.SimpleNamespace(max_x_field=maxx, max_y_field=maxy),
+    def tilt_optic(ft, maxx, maxy, maxf, epd, vx, vy):
+        return dict(field_type=ft,
+                    fields=types.SimpleNamespace(max_x_field=maxx, max_y_field=maxy, max_field=maxf,
+                                                 get_vig_factor=lambda Hx, Hy: (vx, vy)),
                     paraxial=types.SimpleNamespace(EPD=lambda: epd))
+    tilt_kw = has_param(Wavefront._correct_tilt, 'wavelength')
     cases_a, py_a, cases_b, py_b, cases_f, py_f = [], [], [], [], [], []
     for i in range(n):
         ft = 'angle' if i % 4 else 'object_height'
         maxx = g.r.choice([0.0, g.uni(0, 20)])
         maxy = g.r.choice([0.0, g.uni(-20, 30), g.uni(1, 30)])
+        maxf = math.hypot(maxx, maxy)
         epd = g.uni(1, 30)
+        vx, vy = g.r.choice([(0.0, 0.0), (g.uni(0, 0.5), g.uni(0, 0.5))])
+        n_obj = g.r.choice([1.0, 1.0, g.uni(1.0, 1.6)])
+        n_img = g.r.choice([1.0, 1.0, g.uni(1.0, 1.8)])
         f0 = g.r.choice([0.0, g.uni(-1, 1)])
         f1 = g.r.choice([0.0, 1.0, g.uni(-1, 1)])
         opd = g.uni(50, 300)
         x, y = g.uni(-1, 1), g.uni(-1, 1)
         if i % 9 == 0:
             x, y = 0.0, 0.0
+        w = g.r.choice([0.4861, 0.55, 0.5876, 0.6563, g.uni(0.4, 1.6)])
+        kw = {'wavelength': w} if tilt_kw else {}
         wf = mkwf()
-        wf.optic = types.SimpleNamespace(**tilt_optic(ft, maxx, maxy, epd))
+        wf.optic = types.SimpleNamespace(**tilt_optic(ft, maxx, maxy, maxf, epd, vx, vy), **media(n_img, n_obj))
         nr = g.r.choice([1, 2, 3])
         wf.distribution = types.SimpleNamespace(x=np.array([x] + [g.uni(-1, 1) for _ in range(nr - 1)]),
                                                 y=np.array([y] + [g.uni(-1, 1) for _ in range(nr - 1)]))
-        cases_a.append([opd, x, y, ft, f0, f1, maxx, maxy, epd])
-        py_a.append({'ok': [_hex(wf._correct_tilt((f0, f1), np.array([opd]), x=x, y=y))]})
-        cases_b.append([opd, ft, f0, f1, maxx, maxy, x, y, epd])
-        py_b.append({'ok': [_hex(wf._correct_tilt((f0, f1), np.full(nr, opd)))]})
+        tv = {'opd': opd, 'x': x, 'y': y, 'self.optic.field_type': ft, 'field.0': f0, 'field.1': f1,
+              'self.optic.fields.max_x_field': maxx, 'self.optic.fields.max_y_field': maxy,
+              'self.optic.fields.max_field': maxf, 'self.optic.fields.get_vig_factor().0': vx,
+              'self.optic.fields.get_vig_factor().1': vy, 'self.distribution.x': x, 'self.distribution.y': y,
+              'self.optic.paraxial.EPD()': epd, 'self.optic.object_surface.material_post.n()': n_obj,
+              'self.optic.image_surface.material_pre.n()': n_img, 'wavelength': w}
+        cases_a.append(ordered('wf_tilt_xy', tv))
+        py_a.append({'ok': [_hex(wf._correct_tilt((f0, f1), np.array([opd]), x=x, y=y, **kw))]})
+        cases_b.append(ordered('wf_tilt_dist', tv))
+        py_b.append({'ok': [_hex(wf._correct_tilt((f0, f1), np.full(nr, opd), **kw))]})
         # field data
         ns = g.r.randint(2, 10)
         p, d, c, R = geometry(i)
@@ -183,12 +223,14 @@ def kernel_cases(ctx):
                 'L': column(d[0], ns), 'M': column(d[1], ns), 'N': column(d[2], ns),
                 'opd': sorted(column(g.uni(50, 200), ns)), 'intensity': column(g.uni(0, 1), ns)}
         wf2 = mkwf()
-        wf2.optic = _fake_optic(cols, nr, lambda: 0.0, dict(tilt_optic(ft, maxx, maxy, epd), trace=lambda *a, **k: None))
+        wf2.optic = _fake_optic(cols, nr, lambda: 0.0, dict(tilt_optic(ft, maxx, maxy, maxf, epd, vx, vy),
+                                                            trace=lambda *a, **k: None, **media(n_img, n_obj)))
         wf2.distribution = wf.distribution
-        w = g.r.choice([0.4861, 0.55, 0.5876, 0.6563, g.uni(0.4, 1.6)])
         ref = g.uni(50, 200)
-        cases_f.append([w, ref] + c + [R, cols['intensity'], cols['opd']] + [cols[k] for k in 'xyzLMN'] +
-                       [ft, f0, f1, maxx, maxy, x, y, epd])
+        fv = dict(tv)
+        fv.update({'opd_ref': ref, 'xc': c[0], 'yc': c[1], 'zc': c[2], 'R': R})
+        fv.update({SG + k: cols[k] for k in cols})
+        cases_f.append(ordered('wf_field_data', fv))
         try:
             r = wf2._generate_field_data((f0, f1), w, np.array([ref]), np.array([c[0]]), np.array([c[1]]),
                                          np.array([c[2]]), np.array([R]))
@@ -208,7 +250,7 @@ def kernel_cases(ctx):
         inten = [g.r.choice([0.0, 1.0, g.uni(0, 1)]) for _ in range(m)]
         o = mkwf(OPD)
         o.data = [[(np.array(opd), np.array(inten))]]
-        cases_r.append([[[(opd, inten)]]])
+        cases_r.append(ordered('wf_opd_rms', {'self.data': [[(opd, inten)]]}))
         py_r.append({'ok': [_hex(o.rms())]})
         nf, nw = g.r.randint(1, 6), g.r.randint(1, 3)
         data = [[([g.uni(-1, 1) * sc for _ in range(m)], [1.0] * m) for _ in range(nw)] for _ in range(nf)]
@@ -216,7 +258,8 @@ def kernel_cases(ctx):
         rv.num_fields = nf
         rv.wavelengths = [0.45 + 0.1 * j for j in range(nw)]
         rv.data = [[(np.array(a), np.array(b)) for a, b in row] for row in data]
-        cases_v.append([nf, rv.wavelengths, data])
+        cases_v.append(ordered('wf_rms_vs_field', {'self.num_fields': nf, 'self.wavelengths': rv.wavelengths,
+                                                   'self.data': data}))
         py_v.append({'ok': [[[float(v).hex() for v in row] for row in rv._rms_wavefront_error()]]})
     yield 'wf_opd_rms', cases_r, {'pyres': py_r, 'tol': 1e-13}
     yield 'wf_rms_vs_field', cases_v, {'pyres': py_v, 'tol': 1e-13}
@@ -354,8 +397,51 @@ def _derived_checks(ctx):
         d_q = [float(v) for v in np.ravel(wfq.data[0][0][0])]
         lines.append(f'close {fh(1e-11)} (opd_difference (O:=FOps) {fl(d_q)} {fl([float(v) for v in wts])}) {fh(od)}')
         keys.append(('RayOperand.OPD_difference', spec))
-    body = 'Eval vm_compute in (report [\n' + ';\n'.join(lines) + '\n]).\n'
-    res = vlib.run_cases('C09derived', c09lib.IMPORTS, [body])[0]
+    # Wavefront._generate_data as a whole: 'all' fields x 'all' wavelengths against the model's generate_data
+    defs = []
+    gd = 0
+    tries = 0
+    import paraxcorr
+    while gd < ctx.n(3, 20) and tries < 200:
+        tries += 1
+        spec = c09lib.gen_spec(rng)
+        if len(spec['fields']) < 2 and len(spec['wavelengths']) < 2:
+            continue
+        try:
+            o = lensgen.build(spec)
+            dist = c09lib.make_distribution(rng.choice(['hexapolar', 'cross', 'ring']), 2)
+            wf = Wavefront(o, 'all', 'all', num_rays=2, distribution=dist)
+        except Exception:   # noqa
+            continue
+        flat = [float(v) for row in wf.data for cell in row for v in np.ravel(cell[0])]
+        if not all(math.isfinite(v) for v in flat):
+            continue
+        tag = f'g{gd}'
+        wls = [float(w_) for w_ in wf.wavelengths]
+        case0 = dict(spec=spec, ps=paraxcorr.psurfs(o), surfs=lensgen.model_surfaces(o, wls[0]),
+                     max_field=float(o.fields.max_field), max_x_field=float(o.fields.max_x_field),
+                     max_y_field=float(o.fields.max_y_field))
+        d0 = c09lib.coq_case_defs(tag, case0)
+        lens_defs = []
+        sel = '[]'
+        for k, w_ in reversed(list(enumerate(wls))):
+            surfs = '[' + ';\n  '.join(lensgen.coq_surf(s_, fh) for s_ in lensgen.model_surfaces(o, w_)) + ']'
+            lens_defs.append(f'Definition l{tag}w{k} := {surfs}.')
+            sel = f'(if w_ =? {fh(w_)} then l{tag}w{k} else {sel})'
+        defs.append(d0 + '\n'.join(lens_defs) + f'\nDefinition lf{tag} (w_ : float) := {sel}.\n')
+        fs = []
+        for (Hx, Hy) in wf.fields:
+            vx, vy = o.fields.get_vig_factor(Hx, Hy)
+            fs.append(f'mkFS (O:=FOps) {fh(Hx)} {fh(Hy)} {fh(vx)} {fh(vy)}')
+        dpts = '[' + '; '.join(f'({fh(a)}, {fh(b)})' for a, b in zip(dist.x, dist.y)) + ']'
+        slack = max(c09lib.newton_slack({'surfs': lensgen.model_surfaces(o, w_), 'w': w_}) for w_ in wls)
+        lines.append(f'match generate_data (O:=FOps) lf{tag} p{tag} wc{tag} lc{tag} [{"; ".join(fs)}] {fl(wls)} {dpts} with '
+                     f'None => false | Some d_ => close_list {fh(1e-7 + slack)} '
+                     f'(List.concat (map (fun row_ => List.concat (map fst row_)) d_)) {fl(flat)} end')
+        keys.append(('Wavefront(all fields, all wavelengths).data == model generate_data', spec))
+        gd += 1
+    body = '\n'.join(defs) + '\nEval vm_compute in (report [\n' + ';\n'.join(lines) + '\n]).\n'
+    res = c09lib.run_cases_fresh('C09derived', [body])[0]
     if res[0] == 'error':
         raise RuntimeError(res[1])
     for i in res[2]:
@@ -367,7 +453,7 @@ def _derived_checks(ctx):
 
 def system_checks(ctx):
     import c09lib
-    cases, hist = _cases(ctx, ctx.n(70, 700))
+    cases, hist = _cases(ctx, ctx.n(55, 700))
     res = {'name': 'wavefront-model-and-oracle-vs-implementation', 'n': 0, 'nontrivial': 0, 'histogram': hist,
            'samples': [], 'disagreements': []}
     try:
@@ -406,7 +492,8 @@ def system_checks(ctx):
     try:
         n, lenses, bad = _derived_checks(ctx)
         res2['n'], res2['nontrivial'], res2['disagreements'] = n, lenses, bad
-        res2['note'] = 'OPDFan slices, OPD.rms, RmsWavefrontErrorVsField (table, fields, data), OPD_difference'
+        res2['note'] = ('OPDFan slices, OPD.rms, RmsWavefrontErrorVsField (table, fields, data), OPD_difference, '
+                        'Wavefront(all fields x all wavelengths) against the model generate_data')
     except RuntimeError as e:
         res2['error'] = str(e)
     yield res2
